@@ -1,2 +1,41 @@
-/- C17 — property theorems (being extended); the reader model these will be about: -/
-import E57.Model.Simple
+/-
+C17 — Read operations are independent of what was read before.
+
+Proved in E57/Proofs/History.lean on the reader model (E57/Model/Reader.lean, Simple.lean, Pages.lean):
+every library read operation begins with a physical seek and, given the page-cache invariant, its
+answer is a function of the file bytes only.  The model is tied to the crate by the `reader`
+correspondence suite, whose oracle also replays every operation on a fresh reader.
+-/
+import E57.Proofs.History
+namespace E57.C17
+open E57
+
+/-- **History independence.**  For any reader state satisfying the cache invariant (in particular
+    the state right after opening), ANY history `h` of read operations — XML extraction, blob
+    extraction, raw or simple iteration of any cloud under any options for any number of steps,
+    succeeded or failed, fully or partly consumed — and any next operation `q`: the answer of `q`
+    after `h` equals the answer of `q` on the fresh reader. -/
+theorem history_independent (r0 : PR) (hinv : r0.CacheInv) (h : List ROp) (q : ROp) :
+    (runOp q (runOps h r0)).2 = (runOp q r0).2 := C17_history_independent r0 hinv h q
+
+/-- the same stated for an opened `E57Reader`: after any history the answer equals both the answer
+    right after opening and the answer on the pristine page reader over the same file -/
+theorem opened_reader_history_independent (file : Bytes) (xo : XmlOracle) (fp : FloatParse) (rd : Reader)
+    (h : Reader.open file xo fp = some rd) (hist : List ROp) (q : ROp) :
+    (runOp q (runOps hist rd.pr)).2 = (runOp q rd.pr).2 ∧
+    ∀ r0, PR.new ⟨file, 48⟩ rd.header.pageSize = .ok r0 →
+      (runOp q (runOps hist rd.pr)).2 = (runOp q r0).2 := C17_open file xo fp rd h hist q
+
+/-- answers after any two histories agree -/
+theorem any_two_histories (r0 : PR) (hinv : r0.CacheInv) (h1 h2 : List ROp) (q : ROp) :
+    (runOp q (runOps h1 r0)).2 = (runOp q (runOps h2 r0)).2 := C17_any_two_histories r0 hinv h1 h2 q
+
+/-- one `read` of the page layer depends on the cache only through the cache invariant:
+    equivalent readers (same file, same cursor, possibly different caches) give the same bytes or
+    both fail -/
+theorem page_read_cache_independent (r1 r2 : PR) (h : r1.Equiv r2) (n : Nat) :
+    (∃ a1 a2 bs, r1.read n = .ok (a1, bs) ∧ r2.read n = .ok (a2, bs) ∧ a1.Equiv a2) ∨
+    (∃ e, r1.read n = .err e ∧ r2.read n = .err e ∧ r1.readFailState.Equiv r2.readFailState) :=
+  pr_read_equiv h n
+
+end E57.C17
